@@ -119,7 +119,7 @@ impl Property for C06 {
         vec![("history", 5000)]
     }
     fn gen(&self, c: &mut Choices) -> Case {
-        Case::Hist(history::gen_history(c, None))
+        Case::Hist(history::gen_history_cross(c))
     }
     fn check(&self, case: &Case, st: &mut Stats) -> Result<(), String> {
         let h = match case {
